@@ -3,6 +3,7 @@
 //! result line per request (`panic` if the call panicked, `bad-request` if unparsable).
 mod chacha;
 mod distr;
+mod entropy;
 mod enumr;
 mod fills;
 mod mockutil;
@@ -37,6 +38,8 @@ fn dispatch(req: &Req) -> R<String> {
 		"fillb" => fills::fillb(req),
 		"read" => readmock::read(req),
 		"mock" => readmock::mock(req),
+		"system" => entropy::system(req),
+		"newgen" => entropy::newgen(req),
 		"serdist" => serde_rt::serdist(req),
 		_ => Err(Bad),
 	}
